@@ -29,10 +29,10 @@ def rebuild(t, f):
         return tg.tup(*[f(x, "val") for x in t.kids])
     if k == "opt":
         x = f(t.kids[0], "val")
-        return x if x.kind == "opt" else tg.opt(x)
+        return x if x.nil_lead else tg.opt(x)
     if k == "res":
         x = f(t.kids[1], "val")
-        return x if x.kind == "res" else tg.res(t.kids[0], x)
+        return x if x.err_lead else tg.res(t.kids[0], x)
     if k == "var":
         return tg.var(*[f(x, "val") for x in t.kids])
     if k == "wrap":
